@@ -84,19 +84,76 @@ def result_points(case, r):
 
 
 # ----------------------------------------------------------------------------- generation
-def gen_cases(rng, tier, per_fn=None):
+POOL_QUICK = 120      # candidates per function from which the quick tier selects its cases (x3 for MANY_PATHS)
+MANY_PATHS = {"line_to_box", "line_segment_to_box", "line_segment_to_triangle", "line_segment_to_rectangle", "line_segment_to_circle",
+              "triangle_to_triangle", "triangle_to_rectangle", "rectangle_to_rectangle", "rectangle_to_box"}
+
+
+def stratified(rng, fn, n):
+    ka, kb = pl.kinds_of(fn)
+    mix = sorted(pl.stream_mix(ka, kb))
+    # round-robin through the weighted stream list of the pair of kinds: every stream -- also the rarely drawn structural
+    # ones -- is present for every function in proportion to its weight
+    return [pl.gen_pair(rng, fn, mix[(k * len(mix)) // n] if n >= len(set(mix)) else None) for k in range(n)]
+
+
+def gen_cases(rng, tier, per_fn=None, pid=PID):
+    """quick tier: POOL_QUICK stratified candidates per function are traced (harness/impl/c10sig.py, interpreted run) and 36
+    of them are selected so that rarely executed lines of /repo/distance3d/distance/*.py are covered several times:
+    greedily by  score = sum over the case's lines of 1 / (frequency in the pool * (1 + times already covered)^2)  plus a
+    small bonus for a stream that is not selected yet.  Thorough tier / search: weighted random mix, no selection."""
     n = per_fn or (36 if tier == "quick" else 600)
-    cases = []
+    if per_fn or tier != "quick":
+        cases = []
+        for fn in pl.FUNCS:
+            if tier == "quick":
+                cases += stratified(rng, fn, n)
+            else:
+                cases += [pl.gen_pair(rng, fn) for _ in range(n)]          # weighted random mix
+        return cases
+    # ---- quick tier: path-guided selection from a stratified pool
+    pools = {fn: stratified(rng, fn, POOL_QUICK * (3 if fn in MANY_PATHS else 1)) for fn in pl.FUNCS}
+    flat = [c for fn in pl.FUNCS for c in pools[fn]]
+    nw = 8
+    chunks = [flat[i::nw] for i in range(nw)]
+    res = cm.run_impl_parallel(pid, "c10sig", [dict(cases=[dict(fn=c["fn"], args=pl.case_args(c)) for c in ch]) for ch in chunks],
+                               timeout=1800, jit=False, tag="sig")
+    lines = [None] * len(flat)
+    ok = all(r["status"] == "ok" for r in res)
+    if ok:
+        for w, r in enumerate(res):
+            fidx = r["result"]["files"]
+            for i, ls in zip(range(w, len(flat), nw), r["result"]["lines"]):
+                lines[i] = frozenset((fidx[x // 10000000], x % 10000000) for x in ls)
+    cases, stats = [], {}
+    pos = 0
     for fn in pl.FUNCS:
-        ka, kb = pl.kinds_of(fn)
-        mix = sorted(pl.stream_mix(ka, kb))
-        step = max(1, len(mix) // max(1, n))
-        for k in range(n):
-            # quick tier: stratified (round-robin through the weighted stream list of the pair of kinds, so that every
-            # stream -- also the rarely drawn structural ones -- is present for every function in proportion to its
-            # weight); thorough tier: weighted random mix
-            stream = mix[(k * len(mix)) // n] if tier == "quick" and n >= len(set(mix)) else None
-            cases.append(pl.gen_pair(rng, fn, stream))
+        pool = pools[fn]
+        ls = lines[pos:pos + len(pool)]
+        pos += len(pool)
+        if not ok or any(x is None for x in ls):
+            cases += pool[::max(1, len(pool) // n)][:n]
+            continue
+        freq = {}
+        for x in ls:
+            for l in x:
+                freq[l] = freq.get(l, 0) + 1
+        cov, sel, used_streams, left = {}, [], {}, set(range(len(pool)))
+        # n cases, then more (up to 2.5 n) while some line key seen in the pool is still uncovered
+        while left and (len(sel) < n or (len(sel) < int(2.5 * n) and len(cov) < len(freq))):
+            def score(i):
+                return (sum(1.0 / (freq[l] * (1 + cov.get(l, 0)) ** 2) for l in ls[i])
+                        + 0.01 / (1 + used_streams.get(pool[i]["stream"], 0)))
+            best = max(sorted(left), key=score)
+            left.discard(best)
+            sel.append(best)
+            used_streams[pool[best]["stream"]] = used_streams.get(pool[best]["stream"], 0) + 1
+            for l in ls[best]:
+                cov[l] = cov.get(l, 0) + 1
+        cases += [pool[i] for i in sorted(sel)]
+        stats[fn] = dict(pool=len(pool), selected=len(sel), lines_in_pool=len(freq), lines_selected=len(cov),
+                         distinct_paths_in_pool=len(set(ls)), distinct_paths_selected=len({ls[i] for i in sel}))
+    gen_cases.last_stats = stats
     return cases
 
 
@@ -230,6 +287,13 @@ def known_id(case, r):
         return "FD8"      # on-axis arm with pytransform3d's perpendicular_to_vector treating |n_z| < 1e-7 as n_z = 0
     if fn in ("line_to_circle", "line_segment_to_circle"):
         m0 = r.get("m0sq") if isinstance(r, dict) else None
+        lx0 = r.get("lpxn_sq") if isinstance(r, dict) else None
+        if (0.0 < abs(case["B"]["n"][2]) < 1e-7 and m0 is not None and lx0 is not None and m0 < 1e-20
+                and lx0 < 1e-20 * max(1.0, pl.scale_L(case["A"], case["B"]) ** 2)):
+            return "FD8"      # the line is the circle's axis: the same perpendicular_to_vector fallback as in point_to_circle
+        if fn == "line_segment_to_circle" and r.get("on_line") is False and 0.0 < abs(case["B"]["n"][2]) < 1e-7 and any(
+                circle_sqr_len(case, case["A"][k]) < 1.01e-6 for k in ("s", "e")):
+            return "FD8"      # end point clamp delegates to point_to_circle with an end point on the axis
         if m0 is not None and 1e-20 <= m0 < 1e-12:
             return "FD5"
         lx = r.get("lpxn_sq") if isinstance(r, dict) else None
@@ -405,7 +469,7 @@ def theorem_coverage(R, pid):
 
 
 # ----------------------------------------------------------------------------- main
-def load_cases(replay, rng, tier):
+def load_cases(replay, rng, tier, pid_run=PID):
     cases = []
     if replay:
         case = json.loads(open(replay).read())["case"]
@@ -419,7 +483,7 @@ def load_cases(replay, rng, tier):
         if corpus.exists():
             for f in sorted(corpus.glob("*.json")):
                 cases.append(json.loads(f.read_text())["case"])
-    cases += gen_cases(rng, tier)
+    cases += gen_cases(rng, tier, pid=pid_run)
     return cases
 
 
@@ -459,6 +523,15 @@ def run(tier, seed, replay=None):
     # generated only once that entry is in known_findings.json, so that the check stays green on the unchanged tree
     pl.TINY_NZ = "FD8" in load_known()
     cases = load_cases(replay, R.rng, tier)
+    sel = getattr(gen_cases, "last_stats", None)
+    if sel and tier == "quick" and not replay:
+        R.cov["case_selection"] = dict(
+            how="path-guided: %d stratified candidates per function traced line by line in an interpreted run, 36 selected so that "
+                "rarely executed lines are covered repeatedly" % POOL_QUICK,
+            lines_seen_in_pools=sum(v["lines_in_pool"] for v in sel.values()),
+            lines_covered_by_selection=sum(v["lines_selected"] for v in sel.values()),
+            distinct_paths_in_pools=sum(v["distinct_paths_in_pool"] for v in sel.values()),
+            distinct_paths_selected=sum(v["distinct_paths_selected"] for v in sel.values()))
     results, names = run_impl_cases(PID, cases)
     R.cov["evaluations"] = len(cases)
     if names is not None and sorted(names) != sorted(pl.FUNCS):
